@@ -382,6 +382,18 @@ class Plugin:
             return LibFunc("Path.touch", _wrap("pathlib.Path.touch", lambda i, s, a, k: _touch(i, s, o.fields["p"])))
         if c == "ThreadPool" and name == "imap":
             return LibFunc("ThreadPool.imap", _wrap("multiprocessing.pool.ThreadPool.imap", lambda i, s, a, k: _map(i, s, a[0], a[1])))
+        if c == "ThreadPool" and name == "imap_unordered":
+            # results arrive in completion order: any permutation of the in-order results (chosen by the scheduler)
+            def unordered(i, s, a, k):
+                res = list(s.deref(_map(i, s, a[0], a[1])))
+                out = []
+                while len(res) > 1:
+                    # scheduler's choice: is the next result to arrive the first of the remaining ones?
+                    pick_first = i.truth(s, T.Fresh.bool("completion_order"))
+                    out.append(res.pop(0) if pick_first else res.pop(1))
+                out.extend(res)
+                return s.alloc(out, "list")
+            return LibFunc("ThreadPool.imap_unordered", _wrap("multiprocessing.pool.ThreadPool.imap_unordered (any completion order)", unordered))
         if c == "fileobj" and name == "write":
             def write(i, s, a, k):
                 x = s.deref(a[0])
